@@ -3282,17 +3282,36 @@ class quantized_hswish(quantized_bits):  # pylint: disable=invalid-name
     return super(quantized_hswish, self).call(min_parabolic)
 
   def get_config(self):
-    """Add relu_shift and relu_upper_bound to the config file."""
+    """Gets the constructor arguments of quantized_hswish.
 
-    base_config = super(quantized_hswish, self).get_config()
+    The config of the quantized_bits base class cannot be reused: it holds
+    keys (keep_negative, post_training_scale, ...) that
+    quantized_hswish.__init__ does not accept.
+    """
 
     config = {
-        "relu_shift": self.relu_shift,
-        "relu_upper_bound": self.relu_upper_bound,
+        "bits":
+            self.bits,
+        "integer":
+            self.integer.numpy()
+            if isinstance(self.integer, tf.Variable) else self.integer,
+        "symmetric":
+            self.symmetric,
+        "alpha":
+            self.alpha,
+        "use_stochastic_rounding":
+            self.use_stochastic_rounding,
+        "scale_axis":
+            self.scale_axis,
+        "qnoise_factor":
+            self.qnoise_factor.numpy() if isinstance(
+                self.qnoise_factor, tf.Variable) else self.qnoise_factor,
+        "relu_shift":
+            self.relu_shift,
+        "relu_upper_bound":
+            self.relu_upper_bound,
     }
-
-    out_config = dict(list(base_config.items()) + list(config.items()))
-    return out_config
+    return config
 
 
 # TODO(akshayap): Update to use registry for quantizers instead of globals().
